@@ -28,13 +28,29 @@ def guarded(stmts):
 
 def programs():
     for (vn, mk), hint in itertools.product(VALUES, HINTS):
-        for pos in ("let", "for", "arg", "ret", "yield", "match", "catch"):
+        for pos in ("let", "for", "arg", "ret", "yield", "match", "catch", "mlet_ign", "mlet_id", "mlet_bare", "mlet_call", "for2"):
             reset_ids()
             xs = objects() + [Asg("v", mk())]
             if pos == "let":
                 xs.append(guarded([Let("x", hint, Id("v"))]))
             elif pos == "for":
                 xs.append(guarded([For(["x"], Tuple([Id("v")]), Block([Asg("y", Int(1))]), tys=[hint])]))
+            elif pos.startswith("mlet"):
+                # several targets: the hinted one is an ignored target or a named one, in the middle; the RHS is a list
+                # (iterated), a bare tuple (indexed) or a call result; the targets after it must get the right elements
+                mid = "_" if pos == "mlet_ign" else ("_skip" if pos == "mlet_call" else "b")
+                elems = [Int(1), Id("v"), Bool(True)]
+                if pos == "mlet_bare":
+                    rhs, bare = Tuple(elems), True
+                elif pos == "mlet_call":
+                    xs.append(Asg("mk", Fn([], Block([List(elems)]))))
+                    rhs, bare = App(Id("mk"), []), False
+                else:
+                    rhs, bare = List(elems), False
+                xs.append(guarded([MLet(["a", mid, "c"], ["Number", hint, "Bool"], rhs, bare), Core("print", [Tuple([Id("a"), Id("c")])])]))
+            elif pos == "for2":
+                xs.append(guarded([For(["i", "x", "k"], Tuple([Tuple([Int(1), Id("v"), Int(3)])]), Block([Core("print", [Tuple([Id("i"), Id("k")])])]),
+                                       tys=["Number", hint, ""])]))
             elif pos == "arg":
                 xs += [Asg("f", Fn([Param("x", ty=hint)], Block([Int(1)]))), guarded([Asg("r", App(Id("f"), [Id("v")]))])]
             elif pos == "ret":
